@@ -683,19 +683,206 @@ pub fn decoder_sweep(tier: Tier, rep: &mut Report) {
 }
 
 // ---------------------------------------------------------------------------------------------
-// Node sweep (filled in by the SimWorld based part)
+// Node sweep: sequences of datagrams into a running serving node (executed inside the workers)
 
-pub fn node_job(_path: &str, _from: u64, _to: u64, _careful: bool) -> String {
-    "R 0 0 0 0 0 0 - -".into()
+/// Representative datagrams: valid traffic plus one member of every malformed family.
+pub fn node_inputs() -> Vec<(String, Vec<u8>)> {
+    use crate::sim::krpc;
+    let id = [b'n'; 20];
+    let mut v: Vec<(String, Vec<u8>)> = vec![];
+    v.push(("valid ping".into(), krpc::ping(b"aa", &id)));
+    v.push(("valid find_node".into(), krpc::find_node(b"ab", &id, &[b't'; 20], Some(&["n4", "n6"]))));
+    v.push(("valid get_peers".into(), krpc::get_peers(b"ac", &id, &[b'h'; 20], None)));
+    v.push(("announce bad token".into(), krpc::announce_peer(b"ad", &id, &[b'h'; 20], b"nope", Some(1))));
+    v.push(("valid response".into(), krpc::response(b"12345678", &id, Some(b"tok"), None, &[])));
+    v.push(("valid error".into(), krpc::error(b"ae", 201, "x")));
+    v.push(("empty datagram".into(), vec![]));
+    v.push(("1500 x 0xff".into(), vec![0xff; 1500]));
+    v.push(("length prefix 99999999999".into(), b"d1:t99999999999:".to_vec()));
+    v.push(("length prefix 2^63".into(), b"d1:t9223372036854775808:".to_vec()));
+    v.push(("length prefix 2^64".into(), b"d1:t18446744073709551616:".to_vec()));
+    v.push(("length prefix 10^9 in args".into(), b"d1:ad2:id1000000000:e1:q4:ping1:t2:aa1:y1:qe".to_vec()));
+    v.push(("1500 x l".into(), vec![b'l'; 1500]));
+    let mut deep = b"d1:ad1:x".to_vec();
+    deep.extend(std::iter::repeat(b'l').take(1490));
+    v.push(("deep list inside a".into(), deep));
+    let mut deepd = vec![];
+    for _ in 0..370 {
+        deepd.extend_from_slice(b"d1:x");
+    }
+    v.push(("deep dict".into(), deepd));
+    let mut deepr = b"d1:rd6:values".to_vec();
+    deepr.extend(std::iter::repeat(b'l').take(1480));
+    v.push(("deep list inside values".into(), deepr));
+    v.push(("huge integer".into(), b"d1:eli99999999999999999999999e1:xe1:t2:aa1:y1:ee".to_vec()));
+    v.push(("negative port".into(), b"d1:ad2:id20:nnnnnnnnnnnnnnnnnnnn9:info_hash20:hhhhhhhhhhhhhhhhhhhh4:porti-1e5:token1:xe1:q13:announce_peer1:t2:aa1:y1:qe".to_vec()));
+    v.push(("wrong types".into(), b"d1:ai1e1:qli1ee1:tde1:yi0ee".to_vec()));
+    v.push(("non utf-8 method".into(), b"d1:ad2:id20:nnnnnnnnnnnnnnnnnnnne1:q4:\xff\xfe\xfd\xfc1:t2:aa1:y1:qe".to_vec()));
+    let q = krpc::get_peers(b"af", &id, &[b'h'; 20], None);
+    v.push(("truncated query".into(), q[..q.len() / 2].to_vec()));
+    v.push(("query twice in one datagram".into(), [q.clone(), q.clone()].concat()));
+    v.push(("nodes of odd length".into(), b"d1:rd2:id20:nnnnnnnnnnnnnnnnnnnn5:nodes27:aaaaaaaaaaaaaaaaaaaaaaaaaaae1:t8:123456781:y1:re".to_vec()));
+    v.push(("tid of 1400 bytes".into(), krpc::ping(&vec![b'T'; 1400], &id)));
+    v
 }
 
-pub fn node_replay(_v: &Value) -> i32 {
-    2
+pub fn node_records(maxlen: usize) -> Vec<Vec<(u8, usize)>> {
+    // sequences of (source index, input index)
+    let n = node_inputs().len();
+    let mut out: Vec<Vec<(u8, usize)>> = vec![];
+    for a in 0..n {
+        for sa in 0..2u8 {
+            out.push(vec![(sa, a)]);
+            if maxlen >= 2 {
+                for b in 0..n {
+                    out.push(vec![(sa, a), (1 - sa, b)]);
+                    if maxlen >= 3 {
+                        for c in 0..n {
+                            out.push(vec![(sa, a), (1 - sa, b), (sa, c)]);
+                        }
+                    }
+                }
+            }
+        }
+    }
+    out
+}
+
+fn run_node_record(seq: &[(u8, usize)], inputs: &[(String, Vec<u8>)]) -> Option<(String, String)> {
+    use crate::props::single::{self, NodeCfg};
+    use crate::sim::{Action, ApiKind, When};
+    let cfg = NodeCfg { v6: false, read_only: false, table: 3, store: false };
+    let mut b = single::build(&cfg, 0, 1);
+    let node = single::node_addr(false);
+    let mut t = b.ready_ms;
+    for (src, i) in seq {
+        b.sc.actions.push((When::At(t), Action::Inject { from: single::client_addr(*src as usize), to: node, bytes: inputs[*i].1.clone(), tag: String::new() }));
+        t += 10;
+    }
+    t += 100;
+    b.sc.actions.push((When::At(t), Action::PeerCommand { peer: single::client_addr(1), cmd: format!("ping tid={}", hex(b"alive?!!")) }));
+    b.sc.actions.push((When::At(t), Action::GetState { node: 0, tag: "state".into() }));
+    b.sc.actions.push((When::At(t), Action::LoadContacts { node: 0, tag: "contacts".into() }));
+    b.sc.actions.push((When::At(t), Action::LocalAddr { node: 0, tag: "addr".into() }));
+    b.sc.actions.push((When::At(t), Action::Search { node: 0, info_hash: btdht::InfoHash::sha1(b"c14"), announce: false, tag: "search".into() }));
+    b.sc.horizon_ms = t + 8_000;
+    let res = single::run_built(b);
+    let labels: Vec<&str> = seq.iter().map(|(_, i)| inputs[*i].0.as_str()).collect();
+    if !res.panics.is_empty() {
+        return Some(("node-task-panics".into(), format!("after {:?}: {}", labels, res.panics[0].lines().next().unwrap_or(""))));
+    }
+    let pong = res.wire.iter().filter(|d| d.src == node && d.dst == single::client_addr(1)).filter(|d| crate::sim::krpc::parse(&d.bytes).tid == b"alive?!!").count();
+    if pong != 1 {
+        return Some(("node-stops-answering-queries".into(), format!("after {:?} a ping gets {pong} replies", labels)));
+    }
+    for tag in ["state", "contacts", "addr", "search"] {
+        let ok = res.api.iter().any(|e| {
+            e.tag == tag
+                && match &e.kind {
+                    ApiKind::State { running, .. } => *running,
+                    ApiKind::Contacts { .. } => true,
+                    ApiKind::LocalAddr(ok) => *ok,
+                    ApiKind::End => true,
+                    _ => false,
+                }
+        });
+        if !ok {
+            return Some(("api-call-does-not-complete".into(), format!("after {:?}: {tag}", labels)));
+        }
+    }
+    None
+}
+
+/// Worker side of the node sweep: records [from, to) of `node_records(maxlen)` where the path field carries maxlen.
+pub fn node_job(maxlen: &str, from: u64, to: u64, careful: bool) -> String {
+    let maxlen: usize = maxlen.parse().unwrap_or(1);
+    let inputs = node_inputs();
+    let recs = node_records(maxlen);
+    let mut count = 0u64;
+    let mut ok = 0u64;
+    let mut bad = 0u64;
+    use std::io::Write;
+    for k in from..to.min(recs.len() as u64) {
+        if careful {
+            let mut o = std::io::stdout().lock();
+            let _ = writeln!(o, "I {k}");
+            let _ = o.flush();
+        }
+        count += 1;
+        match run_node_record(&recs[k as usize], &inputs) {
+            None => ok += 1,
+            Some((sig, what)) => {
+                bad += 1;
+                let mut o = std::io::stdout().lock();
+                let _ = writeln!(o, "X {k} {sig}|{what}");
+            }
+        }
+    }
+    format!("R {count} {ok} {bad} 0 0 0 - -")
+}
+
+pub fn node_replay(v: &Value) -> i32 {
+    let inputs = node_inputs();
+    let seq: Vec<(u8, usize)> = v["sequence"].as_array().map(|a| a.iter().map(|x| (x[0].as_u64().unwrap() as u8, x[1].as_u64().unwrap() as usize)).collect()).unwrap_or_default();
+    // in-process on a 2 MiB stack; a crash of this process is the reproduction
+    let h = std::thread::Builder::new().stack_size(2 << 20).spawn(move || run_node_record(&seq, &inputs)).unwrap();
+    match h.join() {
+        Ok(None) => 0,
+        Ok(Some((s, w))) => {
+            println!("VIOLATION {s}: {w}");
+            1
+        }
+        Err(_) => {
+            println!("VIOLATION node-sweep-thread-panicked");
+            1
+        }
+    }
+}
+
+pub fn node_sweep(tier: Tier, rep: &mut Report) {
+    let maxlen = tier.pick(2, 3);
+    let recs = node_records(maxlen);
+    let inputs = node_inputs();
+    for build in ["release", "dev"] {
+        let ml = if build == "dev" { maxlen - 1 } else { maxlen };
+        let total = node_records(ml).len() as u64;
+        let chunk = 200u64;
+        let mut jobs = vec![];
+        let mut from = 0;
+        while from < total {
+            jobs.push(Job::File { kind: 'N', path: ml.to_string(), from, to: (from + chunk).min(total) });
+            from += chunk;
+        }
+        let outs = run_jobs(&worker_bin(build), &jobs, 0);
+        let recs_b = node_records(ml);
+        for (job, o) in jobs.iter().zip(outs.iter()) {
+            rep.add("evaluations", o.count);
+            rep.add(&format!("node_sequences_{build}"), o.count);
+            for x in &o.extra {
+                let mut it = x.splitn(2, ' ');
+                let k: usize = it.next().unwrap_or("0").parse().unwrap_or(0);
+                let rest = it.next().unwrap_or("");
+                let (sig, what) = rest.split_once('|').unwrap_or((rest, ""));
+                rep.violation(format!("node {sig} build={build}"), what.to_string(), json!({"engine":"E1","check":"C14","part":"node","build":build,"sequence": recs_b[k].iter().map(|(s, i)| json!([s, i])).collect::<Vec<_>>()}));
+            }
+            for (k, status) in &o.deaths {
+                let seq = &recs_b[*k as usize];
+                let labels: Vec<&str> = seq.iter().map(|(_, i)| inputs[*i].0.as_str()).collect();
+                rep.violation(format!("node process-dies build={build}"), format!("a node receiving {:?} takes the process down: {status}", labels), json!({"engine":"E1","check":"C14","part":"node","build":build,"sequence": seq.iter().map(|(s, i)| json!([s, i])).collect::<Vec<_>>()}));
+            }
+            let _ = job;
+        }
+    }
+    rep.set("node_sweep_inputs", inputs.len() as u64);
+    rep.set("node_sweep_max_sequence_length", maxlen as u64);
+    rep.sample(json!({"family":"node sweep","sequence":[inputs[8].0, inputs[0].0]}));
+    let _ = recs;
 }
 
 pub fn run(tier: Tier) -> Report {
     let mut rep = Report::new("C14", "fault_enumeration", tier);
     decoder_sweep(tier, &mut rep);
+    node_sweep(tier, &mut rep);
     let ev = rep.get("evaluations");
     let ok = rep.get("decoded_ok_release") + rep.get("decoded_ok_dev");
     rep.set("distinct_nontrivial", ev.min(rep.get("token_sequences") / 2 + rep.get("mutation_and_nesting_inputs_distinct")));
